@@ -323,6 +323,15 @@ theorem reject_embedded_blank_core (s : List Char) (hne : s ≠ []) (hb : s.any 
   have hg : puRejectsInnerBlank = true := rfl
   simp [parseUnitsCore, h1, hb, hg]
 
+/-- **embedded blank, on the raw text**: if a blank (any `str.isspace` character) remains after Python's
+`strip()` — i.e. the blank stands between non-blank characters — `parse_units` raises.
+(The replace chain only rewrites the letter `u`, so it neither removes nor creates blanks.) -/
+theorem reject_embedded_blank (s0 : List Char) (h : (stripBlank s0).any isBlank = true) :
+    parseUnitsChars s0 = .error .badSyntax := parseUnitsChars_inner_blank s0 h
+
+example : (parseUnitsChars "m2 .s".toList).isError = true ∧ (parseUnitsChars "mol/µm. s".toList).isError = true ∧
+    (parseUnitsChars " m2.s ".toList).isError = false := by decide +kernel
+
 /-- unknown symbol: a factor whose symbol is none of the 47 supported symbols -/
 theorem reject_unknown_symbol (s : List Char) (hne : s ≠ [])
     (h : ∃ b ∈ scanBlocks s [] startBlock false, String.ofList b.sym ∉ allSyms) :
@@ -453,6 +462,40 @@ theorem quantity_units_tokens_joined (pyFloat : List Char → Option Rat) (s t t
   have hj : uvUnitTokJoin.toList = [' '] := by decide
   simp only [parseUnitValueChars, hs, hf, hj, joinSep, List.append_assoc, List.singleton_append]
   rfl
+
+/-- **blank inside the unit expression of a quantity** (`"1 m s"`, `"1 mol/µm. s"`): two or more tokens
+after the value are joined by a blank and therefore rejected -/
+theorem reject_blank_inside_quantity_units (pyFloat : List Char → Option Rat) (s t t1 t2 : List Char)
+    (rest : List (List Char)) (hs : splitBlank (stripBlank s) = t :: t1 :: t2 :: rest)
+    (h1 : t1 ≠ [] ∧ ∀ c ∈ t1, isBlank c = false) (h2 : t2 ≠ [] ∧ ∀ c ∈ t2, isBlank c = false) :
+    (parseUnitValueChars pyFloat s).isError = true := by
+  cases hf : pyFloat t with
+  | none => rw [reject_nonnumeric_value pyFloat s t _ hs hf]; rfl
+  | some v =>
+    rw [quantity_units_tokens_joined pyFloat s t t1 t2 rest v hs hf]
+    have hb : (stripBlank (t1 ++ ' ' :: joinSep [' '] (t2 :: rest))).any isBlank = true := by
+      obtain ⟨a, as, ha⟩ := List.exists_cons_of_ne_nil h1.1
+      obtain ⟨b, bs, hb⟩ := List.exists_cons_of_ne_nil h2.1
+      have hja : ∃ w, joinSep [' '] (t2 :: rest) = b :: w := by
+        cases rest with
+        | nil => exact ⟨bs, by simp [joinSep, hb]⟩
+        | cons r rs => exact ⟨bs ++ [' '] ++ joinSep [' '] (r :: rs), by simp [joinSep, hb]⟩
+      obtain ⟨w, hw⟩ := hja
+      have hanb : isBlank a = false := h1.2 a (by rw [ha]; simp)
+      have hbnb : isBlank b = false := h2.2 b (by rw [hb]; simp)
+      -- the text is a :: … ' ' :: b :: …; stripping from the left stops at `a`; the blank before `b`
+      -- survives stripping from the right because `b` (or something right of it) is not blank
+      rw [hw, ha]
+      unfold stripBlank stripBy
+      simp only [List.cons_append, List.dropWhile, hanb]
+      rw [List.any_reverse]
+      have hrev : (a :: (as ++ ' ' :: b :: w)).reverse = w.reverse ++ (b :: ' ' :: (a :: as).reverse) := by simp
+      rw [hrev, List.dropWhile_append]
+      split
+      · exact List.any_eq_true.2 ⟨' ', by simp [List.dropWhile, hbnb], by decide⟩
+      · exact List.any_eq_true.2 ⟨' ', by simp, by decide⟩
+    rw [reject_embedded_blank _ hb]
+    rfl
 
 example : parseUnitsChars (showUnitsChars ⟨⟨"km", "h", "mol"⟩, ⟨-12, 1, 105⟩⟩) =
     .ok ⟨⟨"km", "h", "mol"⟩, ⟨-12, 1, 105⟩⟩ := by decide +kernel
